@@ -307,6 +307,7 @@ tpt_msg_send(tpt_p dst, tpt_p src, uint32_t flags,
 			return (0);
 		}
 	}
+	LCB_VERIF_POINT("msg_send:before-running-check");
 	if (0 == tpt_is_running(dst)) {
 		if (0 == (TP_MSG_F_FORCE & flags))
 			return (EHOSTDOWN);
@@ -359,6 +360,7 @@ tpt_msg_broadcast_send__int(tp_p tp, tpt_p src,
 		(*send_msg_cnt) ++;
 		if (0 == tpt_msg_send(tpt, src, flags, msg_cb, udata))
 			continue;
+		LCB_VERIF_POINT("bcast:after-failed-send");
 		/* Error on send. Allso here EHOSTDOWN from not running threads. */
 		(*send_msg_cnt) --;
 		(*error_cnt) ++;
@@ -433,6 +435,7 @@ tpt_msg_bsend_ex(tp_p tp, tpt_p src, uint32_t flags,
 	    flags, msg_cb, udata, &msg_data_s.send_msg_cnt,
 	    &msg_data_s.error_cnt);
 
+	LCB_VERIF_POINT("bsend:after-bcast");
 	if (NULL != msg_data) { /* TP_BMSG_F_SYNC: Wait for all. */
 		/* Update active threads count and store to tm_cnt. */
 		rqts.tv_sec = 0;
@@ -544,6 +547,7 @@ tpt_msg_cbsend(tp_p tp, tpt_p src, uint32_t flags,
 	tm_cnt = tpt_msg_broadcast_send__int(tp, src, msg_data, flags,
 	    tpt_msg_sync_proxy_cb, msg_data, &msg_data->send_msg_cnt,
 	    &msg_data->error_cnt);
+	LCB_VERIF_POINT("cbsend:after-bcast");
 	if (0 == tm_cnt)
 		return (0); /* OK, sheduled. */
 	/* Errors. Update active threads count and store to tm_cnt. */
